@@ -52,6 +52,7 @@ type Ctx struct {
 	maxViol  int
 	vkeys    map[string]bool
 	t0       time.Time
+	outPath  string
 }
 
 func (c *Ctx) Thorough() bool { return c.Tier == "thorough" }
@@ -189,7 +190,7 @@ func Main(parts map[string]PartFunc) {
 		os.Exit(2)
 	}
 	c := &Ctx{Part: name, Tier: *tier, Seed: *seed, Shard: *shard, NShard: *nshard, ReplayIn: *replay,
-		outcomes: map[string]int{}, vkeys: map[string]bool{}, maxViol: 8, t0: time.Now()}
+		outcomes: map[string]int{}, vkeys: map[string]bool{}, maxViol: 8, t0: time.Now(), outPath: *out}
 	c.R.Part = name
 	c.R.Exhaustive = true
 	c.R.BoundCompleted = 99
@@ -207,6 +208,18 @@ func Main(parts map[string]PartFunc) {
 		}()
 		f(c)
 	}()
+	c.finish(*out)
+}
+
+// FlushAndExit writes the result file as it stands and ends the process: for a harness that had to
+// abandon a goroutine which may still be running code under test (see Watchdog).
+func (c *Ctx) FlushAndExit() {
+	c.finish(c.outPath)
+	os.Exit(0)
+}
+
+func (c *Ctx) finish(outPath string) {
+	out := &outPath
 	c.R.Outcomes = c.outcomes
 	if len(c.outcomes) > 200 {
 		// keep the file small: store the count and a few representatives
@@ -244,4 +257,24 @@ func (c *Ctx) LoadReplay(v any) error {
 		return err
 	}
 	return json.Unmarshal(b, v)
+}
+
+// Watchdog runs fn on its own goroutine and waits for it for at most d of REAL time (this package is
+// not rewritten, so the clock is the real one even inside an instrumented harness). It reports
+// whether fn returned. A body that did not return is abandoned, not stopped: the caller must treat
+// the run as over (report and wind down), because the abandoned goroutine may still be running.
+// For code that must terminate in microseconds and is given tens of seconds: a hang detector, not
+// a timing oracle.
+func Watchdog(d time.Duration, fn func()) (finished bool) {
+	done := make(chan struct{})
+	go func() {
+		defer close(done)
+		fn()
+	}()
+	select {
+	case <-done:
+		return true
+	case <-time.After(d):
+		return false
+	}
 }
